@@ -255,6 +255,22 @@ def run_c13(run: core.Run, n_markers: int) -> None:
             run.fail(core.Failure(f"sym|{enc_spec(o)}|{enc_spec(p)}", f"{o!r} == {p!r} is {eq} but the converse is {p == o}", rep))
         if eq and (hash(o) != hash(p) or len({o, p}) != 1):
             run.fail(core.Failure(f"hash|{enc_spec(o)}|{enc_spec(p)}", f"{o!r} == {p!r} but their hashes differ / two set members", rep))
+        if eq:
+            # equal spellings of one set are interchangeable as EITHER operand of & and | (seed C13i: the reflected `|` of
+            # AnySpecifier aliased to `&`, so `a | AnySpecifier()` differed from `a | RangeSpecifier()`)
+            for rt in (">=1.0", "<2", "!=1.5", ">=1,<2||>=3", "==1.*"):
+                r = parse_version_specifier(rt)
+                for nm, f in (("r|x", lambda x: r | x), ("x|r", lambda x: x | r), ("r&x", lambda x: r & x), ("x&r", lambda x: x & r)):
+                    n_oracle += 1
+                    try:
+                        a1, a2 = f(o), f(p)
+                    except Exception as ex:  # noqa: BLE001
+                        run.fail(core.Failure(f"ends-op|{enc_spec(o)}|{enc_spec(p)}|{rt}|{nm}", f"{nm} raised {type(ex).__name__} for x = {o!r} / {p!r}", rep))
+                        continue
+                    if not (a1 == a2) or [smem(a1, q) for q in probes] != [smem(a2, q) for q in probes]:
+                        run.fail(core.Failure(f"ends-op|{enc_spec(o)}|{enc_spec(p)}|{rt}|{nm}",
+                                              f"{o!r} == {p!r} but {nm} with r = {rt} gives {a1!r} and {a2!r}",
+                                              {"op": "endsop", "a": enc_spec(o), "b": enc_spec(p), "r": rt}))
         for r in ends:
             if eq and p == r and not (o == r):
                 run.fail(core.Failure(f"trans|{enc_spec(o)}|{enc_spec(p)}|{enc_spec(r)}", "equality is not transitive",
@@ -740,6 +756,9 @@ def replay(data: dict) -> bool:
         a, b = mk.parse_marker(r["a"]), mk.parse_marker(r["b"])
         eq = (a == b)
         return eq != r["equal"] or (eq and hash(a) != hash(b))
+    if r["op"] == "endsop":
+        a, b, x = p_spec.dec_spec(r["a"]), p_spec.dec_spec(r["b"]), parse_version_specifier(r["r"])
+        return not ((x | a) == (x | b) and (a | x) == (b | x) and (x & a) == (x & b) and (a & x) == (b & x))
     if r["op"] == "speceq":
         a, b = p_spec.dec_spec(r["a"]), p_spec.dec_spec(r["b"])
         return (a == b) != (b == a) or ((a == b) and hash(a) != hash(b))
